@@ -42,6 +42,13 @@ def _pending_defs(L, var):
         if isinstance(lhs, dict):
             continue
         if render(lhs) == var and not rhs.is_null_const() and st.within(L.loop):
+            # putting the buffer's own earlier value back (saved in a local before a re-allocation that failed) records nothing
+            r0 = rhs.strip()
+            if r0.k == "DeclRefExpr" and r0.j.get("dk") == "local":
+                saves = [r2 for l2, r2, s2 in f.assignments() if (l2["name"] if isinstance(l2, dict) else render(l2)) == r0.j["name"]
+                         and (not isinstance(l2, dict) or l2.get("did") in (None, r0.j.get("did")))]
+                if saves and all(r2 is not None and render(r2.strip()) == var for r2 in saves):
+                    continue
             out.append(st)
     for c in f.calls(("asprintf", "vasprintf")):
         if c.within(L.loop) and c.call_args():
